@@ -109,6 +109,17 @@ BODIES = [
     [P('FAILWITH')],
     [P('DROP'), PUSH(STRING, 'x')],
     [P('DROP'), PUSH(BOOL, False)],
+    # stack-cursor instructions inside bodies: under DIP they must work relative to the protected prefix
+    [P('DUP', I(2))],
+    [P('DIG', I(1))],
+    [P('DUG', I(1))],
+    [P('DROP', I(1))],
+    [P('DUP', I(2)), P('DROP')],
+    [P('DIP', [P('DUP')])],
+    [P('DIP', I(2), [P('DUP')])],
+    [P('PAIR', I(2))],
+    [P('UNPAIR', I(2))],
+    [P('GET', I(1))],
 ]
 LOOP_BODIES = [
     [PUSH(BOOL, False)],
@@ -157,7 +168,7 @@ def instances(types, reduced=False):
             cands.append(P('UNPACK', TY(types[0])) if T.packable(types[0]) else P('UNIT'))
     for t, v in (PUSHES[:8] if reduced else PUSHES):
         cands.append(PUSH(t, v))
-    bodies = BODIES[:10] if reduced else BODIES
+    bodies = (BODIES[:10] + BODIES[19:23]) if reduced else BODIES
     for b1, b2 in itertools.product(bodies, repeat=2):
         cands += [P('IF', b1, b2), P('IF_NONE', b1, b2), P('IF_LEFT', b1, b2), P('IF_CONS', b1, b2)]
     for b in bodies:
@@ -334,6 +345,9 @@ def _compare(mode, cls, types, ref, out, stack, ctx, rev=False):
             if out[0] != 'error':
                 viol.append((f'{cls} on {top_shape(types)}: reference fails at run time, implementation {out[0]}', f'{out} / reference {ref}'))
     else:  # C02
+        if ref[0] == 'ok' and out[0] == 'ok' and len(stack.items) != len(ref[1]):
+            viol.append((f'{cls} on {top_shape(types)}: result stack has {len(stack.items)} slots, the typing rules give {len(ref[1])}',
+                         f'implementation {[T.t_str(A.impl_type(o)) for o in stack.items]} vs static {[T.t_str(t) for t, _ in ref[1]]}'))
         if ref[0] == 'ok' and out[0] == 'ok' and len(stack.items) == len(ref[1]):
             for i, (obj, (t, _)) in enumerate(zip(stack.items, ref[1])):
                 probs = A.consistent(obj, t)
